@@ -65,6 +65,44 @@ pub fn real_deframe(data: &[u8]) -> (String, Option<(Vec<u8>, Vec<u8>)>) {
     }
 }
 
+/// the same, but the parser pulls its input through a `BufReader` of the given capacity over a
+/// source delivering `chunk`-sized reads (buffer refills fall inside headers and length fields)
+pub fn real_deframe_buffered(data: &[u8], cap: usize, chunk: usize) -> String {
+    let r = guarded(|| {
+        let src = ScheduledReader::new(data, &vec![chunk.max(1); data.len() / chunk.max(1) + 2]);
+        let mut br = std::io::BufReader::with_capacity(cap.max(1), src);
+        let mut parser = PacketParser::new(&mut br);
+        match parser.next_ref() {
+            None => "none".to_string(),
+            Some(Err(_)) => "err".to_string(),
+            Some(Ok(mut body)) => {
+                let h = body.packet_header();
+                let mut b = Vec::new();
+                match body.read_to_end(&mut b) {
+                    Err(_) => "err".to_string(),
+                    Ok(_) => {
+                        let inner = body.into_inner();
+                        let mut rest = Vec::new();
+                        let _ = inner.read_to_end(&mut rest);
+                        let fmt = match h.version() {
+                            pgp::types::PacketHeaderVersion::New => 1,
+                            pgp::types::PacketHeaderVersion::Old => 0,
+                        };
+                        let tag: u8 = h.tag().into();
+                        let kind = match h.packet_length() {
+                            PacketLength::Fixed(n) => format!("f{n}"),
+                            PacketLength::Partial(n) => format!("p{n}"),
+                            PacketLength::Indeterminate => "i".to_string(),
+                        };
+                        format!("ok:{fmt}:{tag}:{kind}:{}:{}", cksum(&b), cksum(&rest))
+                    }
+                }
+            }
+        }
+    });
+    r.unwrap_or_else(|_| "panic".to_string())
+}
+
 struct Desc {
     fmt: u8,
     tag: u8,
@@ -98,6 +136,56 @@ fn run_desc(ctx: &mut Ctx, d: &Desc) {
     let (ans, got) = real_deframe(&stream);
     ctx.case(req.clone(), ans.clone());
     ctx.stat(&format!("kind:{}", d.kind));
+    // the same stream through buffered readers whose refills fall inside the header / length
+    // octets: the result must not depend on how the input is buffered
+    if stream.len() <= 20_000 {
+        for (cap, chunk) in [(1usize, 1usize), (2, 2), (3, 1), (5, 5), (7, 3), (8192, 8190)] {
+            if (d.seed + cap) % 3 != 0 && cap != 3 {
+                continue;
+            }
+            let b = real_deframe_buffered(&stream, cap, chunk);
+            ctx.oracle("framing_independent_of_buffering", "PacketParser over BufRead (PacketLength::try_from_reader / PacketHeader::try_from_reader)",
+                &format!("{req} cap={cap} chunk={chunk}"), b == ans, &format!("buffered {b} vs slice {ans}"));
+            ctx.stat("buffered_reader");
+        }
+    }
+
+    // ---- write-back: a packet the library accepted, written again with its header, must be a
+    // legal framing whose lengths match the bytes that follow and which carries the same body
+    if d.trunc == 0 && stream.len() <= 20_000 {
+        let wb = guarded(|| {
+            use pgp::packet::PacketTrait;
+            let mut src: &[u8] = &stream;
+            let mut parser = PacketParser::new(&mut src);
+            match parser.next() {
+                Some(Ok(pkt)) => {
+                    let mut out = Vec::new();
+                    pkt.to_writer_with_header(&mut out).ok().map(|_| (out, pkt.write_len_with_header()))
+                }
+                _ => None,
+            }
+        });
+        if let Ok(Some((written, announced))) = wb {
+            let indet = d.kind == "indet";
+            let mut w2 = written.clone();
+            if !indet {
+                w2.extend_from_slice(b"\xCA\x03PGP"); // a marker packet after it: must stay intact
+            }
+            let (a1, g1) = real_deframe(&w2);
+            // the announced lengths match the bytes that follow: what comes after the packet is
+            // found exactly where the header says (an indeterminate packet extends to the end)
+            let legal = match &g1 {
+                Some((_, r1)) => if indet { r1.is_empty() } else { r1.as_slice() == b"\xCA\x03PGP" },
+                None => false,
+            };
+            let _ = &got;
+            ctx.oracle("written_back_packet_is_legal", "PacketTrait::to_writer_with_header", &req, legal && announced == written.len(), &format!("written {} announced {announced} reparse {a1}", hx(&written[..written.len().min(24)])));
+            if written.len() <= 3000 {
+                ctx.case(format!("deframe data={}", hx(&w2)), a1);
+            }
+            ctx.stat("write_back");
+        }
+    }
 
     // ---- oracle, from the property text
     let legal_partial = d.kind != "partial"
